@@ -209,6 +209,20 @@ func (fp *FaultPlan) Decide(d *simnet.Datagram) simnet.Decision {
 			noteDrop()
 		case "dup":
 			dec.Dup = 1 + r.Dups
+		case "latedup":
+			// the datagram passes, and an exact copy arrives again DelayMs later
+			// (a duplicate out of a network queue), when the stream has moved on
+			if fp.Net != nil {
+				if fp.injected == nil {
+					fp.injected = map[string]bool{}
+				}
+				cp := append([]byte(nil), d.Data...)
+				fp.injected[string(cp)] = true
+				from, to := parseAddr(d.From), parseAddr(d.To)
+				n := fp.Net
+				time.AfterFunc(time.Duration(r.DelayMs)*time.Millisecond, func() { n.InjectDatagram(from, to, cp) })
+				fp.MutDesc = append(fp.MutDesc, fmt.Sprintf("late duplicate of %v after %d ms", p.Meta, r.DelayMs))
+			}
 		case "delay":
 			dec.Delay = time.Duration(r.DelayMs) * time.Millisecond
 		case "reflect":
